@@ -39,6 +39,8 @@ type RunResult struct {
 	Inconclusive int             `json:"inconclusive,omitempty"`
 	Log          []string        `json:"log,omitempty"`
 	Extra        map[string]any  `json:"extra,omitempty"` // engine-specific part of the evidence sample (fault trace, schedule)
+	Trace        []int32         `json:"trace,omitempty"` // engine S: the complete decision list (only on request, VSIM_TRACE)
+	Diverged     int             `json:"diverged,omitempty"`
 }
 
 // PropDef describes how one property is checked.
